@@ -6,9 +6,9 @@
 //   call/proc come from the hook log (the exact request + timestamp the library saw and its answer),
 //   ret is what the client decoded from the wire.
 use crate::actor::{BuiltStore, StoreCfg, LATTICE};
-use crate::cmd::counters;
+use crate::cmd::{counters, hostile_keys};
 use crate::conn::{free_port, install_trace_capture, wait_port};
-use crate::metrics::lex_sample;
+use crate::metrics::{lex_sample, table_text};
 use crate::resp::{parse_with, Dec};
 use crate::util::*;
 use crate::val::hx;
@@ -287,6 +287,13 @@ pub async fn route(rng: &mut Rng, ports: &Ports, l: &Logical, seen: &mut Seen, r
         choices.push(Proto::Grpc);
     }
     let proto = rng.pick(&choices);
+    let (a, desc) = send_proto(proto, rng, ports, l, seen, resp_conn, false).await;
+    (proto, a, desc)
+}
+
+/// one logical request over the given protocol (HTTP: a connection per request; gRPC: a channel per
+/// request; RESP: the kept connection, re-opened now and then, or a NEW one when `fresh_conn`)
+pub async fn send_proto(proto: Proto, rng: &mut Rng, ports: &Ports, l: &Logical, seen: &mut Seen, resp_conn: &mut Option<RespConn>, fresh_conn: bool) -> (WireAns, String) {
     match proto {
         Proto::Http => {
             let body = json_body(rng, l);
@@ -297,7 +304,7 @@ pub async fn route(rng: &mut Rng, ports: &Ports, l: &Logical, seen: &mut Seen, r
             if status == 500 {
                 seen.errors += 1;
             }
-            (proto, a, format!("HTTP POST /throttle {body}"))
+            (a, format!("HTTP POST /throttle {body}"))
         }
         Proto::Grpc => {
             let a = grpc_call(ports.grpc, l).await;
@@ -307,11 +314,11 @@ pub async fn route(rng: &mut Rng, ports: &Ports, l: &Logical, seen: &mut Seen, r
             if matches!(a, WireAns::Err(_)) {
                 seen.errors += 1;
             }
-            (proto, a, format!("gRPC Throttle {l:?}"))
+            (a, format!("gRPC Throttle {l:?}"))
         }
         Proto::Resp => {
             let cmd = resp_command(rng, l);
-            if resp_conn.is_none() || rng.chance(1, 5) {
+            if fresh_conn || resp_conn.is_none() || rng.chance(1, 5) {
                 *resp_conn = RespConn::open(ports.resp).await.ok();
             }
             let r = match resp_conn.as_mut() {
@@ -323,7 +330,7 @@ pub async fn route(rng: &mut Rng, ports: &Ports, l: &Logical, seen: &mut Seen, r
             } else {
                 seen.resp += 1;
             }
-            (proto, resp_answer(r), format!("RESP {}", hx(&cmd)))
+            (resp_answer(r), format!("RESP {}", hx(&cmd)))
         }
     }
 }
@@ -400,12 +407,59 @@ async fn check_metrics(ports: &Ports, metrics: &Metrics, seen: &mut Seen, out: &
     }
 }
 
+/// `max_denied_keys` of the server of this mode
+const WIRE_MAX_DENIED: usize = 100;
+
+/// after the denial probes: GET /metrics answers 200 and has a `throttlecrab_top_denied_keys` line for
+/// every probe key that must be in the report: the key is in the table (always when `no_eviction`: the
+/// table was small enough before the probes that no clean-up can have run since) and at most `max`
+/// keys have a count at least as high (ties are broken arbitrarily)
+async fn check_probe_keys_exported(ports: &Ports, metrics: &Metrics, keys: &[String], no_eviction: bool, out: &mut Out, replay: &[String]) {
+    let table = metrics.verif_denied_table().unwrap_or_default();
+    let scrape = http_raw(ports.http, b"GET /metrics HTTP/1.1\r\nHost: x\r\nConnection: close\r\n\r\n").await;
+    out.bump("metrics_scrapes");
+    let text = match scrape {
+        Ok((200, text)) => text,
+        other => {
+            out.violation("C15", format!("after the poison round GET /metrics failed: {other:?}"), replay.to_vec());
+            return;
+        }
+    };
+    let mut listed: Vec<(String, String)> = vec![];
+    for line in text.split('\n') {
+        if line.starts_with("throttlecrab_top_denied_keys") {
+            match lex_sample(line) {
+                Ok(s) => listed.push((s.labels.iter().find(|l| l.0 == "key").map(|l| l.1.clone()).unwrap_or_default(), s.value)),
+                Err(e) => out.violation("C16", format!("after the poison round: /metrics line not well-formed ({e}): {line:?}"), replay.to_vec()),
+            }
+        }
+    }
+    for k in keys {
+        let Some(count) = table.iter().find(|e| &e.0 == k).map(|e| e.1) else {
+            if no_eviction {
+                out.violation("C16", format!("probe key {k:?} was denied a moment ago but is not in the denied-keys table ({} keys)", table.len()), replay.to_vec());
+            }
+            continue;
+        };
+        let at_least = table.iter().filter(|e| e.1 >= count).count();
+        if at_least <= WIRE_MAX_DENIED {
+            out.bump("probe_keys_expected_in_metrics");
+            match listed.iter().find(|l| &l.0 == k) {
+                Some((_, v)) if *v == count.to_string() => {}
+                other => out.violation("C16", format!("GET /metrics after the poison round: top_denied_keys line for probe key {k:?} (denied {count} time(s), {at_least} keys rank at least as high, max {WIRE_MAX_DENIED}) is {other:?}"), replay.to_vec()),
+            }
+        } else {
+            out.bump("probe_keys_rank_undetermined");
+        }
+    }
+}
+
 pub fn run(seed: u64, n: usize, out: &mut Out) {
     install_trace_capture();
     let rt = tokio::runtime::Builder::new_multi_thread().worker_threads(4).enable_all().build().unwrap();
     let mut rng = Rng::new(seed);
     rt.block_on(async {
-        let metrics = Arc::new(Metrics::builder().max_denied_keys(100).build());
+        let metrics = Arc::new(Metrics::builder().max_denied_keys(WIRE_MAX_DENIED).build());
         let store_cfg = match rng.below(3) {
             0 => StoreCfg::Periodic { interval_ns: rng.pick(&[1_000_000_000u64, 60_000_000_000]) },
             1 => StoreCfg::Prob { modulus: rng.pick(&[3u64, 1000]) },
@@ -777,7 +831,81 @@ pub fn run(seed: u64, n: usize, out: &mut Out) {
             }
             tokio::time::sleep(Duration::from_millis(20)).await;
             take_log();
+            // hostile KEYS on every protocol, each in a pair burst 1, 1 per 3600 s: the first is allowed, the
+            // second DENIED, which is what hands the key to the denied-key tracking of the transport
+            for (pi, proto) in [Proto::Http, Proto::Grpc, Proto::Resp].into_iter().enumerate() {
+                let mut events: Vec<String> = vec![];
+                let mut idx = 0usize;
+                for (what, key) in hostile_keys(&format!("hk{round}_{proto:?}_"), ((round * 3 + pi) % 1000) as u32) {
+                    for half in 0..2 {
+                        let q = if proto == Proto::Grpc || rng.chance(1, 2) { Some(1) } else { None };
+                        let l = Logical { key: key.clone(), b: 1, c: 1, p: 3600, q };
+                        let tab_before = metrics.verif_denied_table().unwrap_or_default();
+                        let (ans, desc) = send_proto(proto, &mut rng, &ports, &l, &mut seen, &mut resp_conn, false).await;
+                        let tab_after = metrics.verif_denied_table().unwrap_or_default();
+                        let log = take_log();
+                        let procs: Vec<(Vec<String>, String)> = log.iter().filter_map(|x| parse_proc(x)).collect();
+                        out.bump("hostile_key_requests");
+                        let shown: String = desc.chars().take(400).collect();
+                        descr.push(format!("{proto:?} key of {} bytes ({what}), request {} of the pair -> {}", key.len(), half + 1, ans.show()));
+                        let replay = vec![format!("# wire: key of {} bytes ({what}), burst 1, 1 per 3600 s, request {} of 2: {shown} -> {}", key.len(), half + 1, ans.show())];
+                        match &ans {
+                            WireAns::Broken(e) => {
+                                out.violation("C11", format!("request with a hostile key ({what}) got no answer at all on {proto:?}: {e}"), replay.clone());
+                                continue;
+                            }
+                            WireAns::Ok(false, ..) => seen.denied += 1,
+                            _ => {}
+                        }
+                        let as_wanted = if half == 0 { matches!(ans, WireAns::Ok(true, 1, 0, _, _)) } else { matches!(ans, WireAns::Ok(false, 1, 0, _, rt) if rt >= 0) };
+                        if !as_wanted {
+                            out.violation(
+                                "C12",
+                                format!("{proto:?}: request {} of a pair on a fresh hostile key ({what}), burst 1: answered {}, want {}", half + 1, ans.show(), if half == 0 { "ok,1,1,0,_,_" } else { "ok,0,1,0,_,>=0" }),
+                                replay.clone(),
+                            );
+                        }
+                        if procs.len() != 1 || procs[0].1 != ans.show() || procs[0].0[..5] != [hx(key.as_bytes()), "1".into(), "1".into(), "3600".into(), "1".into()] {
+                            out.violation("C12", format!("{proto:?}, hostile key ({what}): limiter log {:?}, wire answer {}", procs.iter().map(|p| (&p.0[1..], &p.1)).collect::<Vec<_>>(), ans.show()), replay.clone());
+                        } else {
+                            let (id, resp) = &procs[0];
+                            events.push(format!("call:0:{idx}:{}", id.join(":")));
+                            events.push(format!("proc:0:{idx}:{resp}"));
+                            events.push(format!("ret:0:{idx}:{}", ans.show()));
+                            idx += 1;
+                        }
+                        if let WireAns::Ok(false, ..) = ans {
+                            // what the denied-keys table (max 100) did with this key
+                            out.bump("hostile_keys_denied");
+                            let step = format!("tstep {WIRE_MAX_DENIED} {} {} {}", table_text(&tab_before), hx(key.as_bytes()), table_text(&tab_after));
+                            if tab_before.len() <= 400 && tab_after.len() <= 400 {
+                                out.line(step.clone(), "ok".into());
+                            }
+                            let count = |t: &[(String, u64)], k: &str| t.iter().find(|e| e.0 == k).map(|e| e.1).unwrap_or(0);
+                            if key.len() > 256 {
+                                if tab_after != tab_before {
+                                    out.violation("C16", format!("{proto:?}: a denied key of {} bytes ({what}) changed the denied-keys table", key.len()), vec![replay[0].clone(), step]);
+                                }
+                            } else if tab_after.len() >= tab_before.len() {
+                                // (no eviction happened)
+                                let others_same = tab_before.iter().all(|(k, c)| k == &key || count(&tab_after, k) == *c) && tab_after.iter().all(|(k, c)| k == &key || count(&tab_before, k) == *c);
+                                if count(&tab_after, &key) != count(&tab_before, &key) + 1 || !others_same {
+                                    out.violation("C16", format!("{proto:?}: denied key of {} bytes ({what}): its count went {} -> {}, other entries {}", key.len(), count(&tab_before, &key), count(&tab_after, &key), if others_same { "unchanged" } else { "CHANGED" }), vec![replay[0].clone(), step]);
+                                }
+                            }
+                        }
+                    }
+                }
+                if !events.is_empty() {
+                    out.line(format!("atrace-loose {cap} {store_token} {}", events.join(";")), format!("ok {idx}"));
+                }
+            }
+            tokio::time::sleep(Duration::from_millis(20)).await;
+            take_log();
             // probes on NEW connections of each protocol
+            let mut probe_keys: Vec<String> = vec![];
+            // (a clean-up of the denied-keys table runs when it exceeds 3 x max entries)
+            let no_eviction = metrics.verif_denied_table().unwrap_or_default().len() + 3 <= 3 * WIRE_MAX_DENIED;
             for proto in [Proto::Http, Proto::Grpc, Proto::Resp] {
                 let l = Logical { key: format!("probe{round}_{proto:?}"), b: 2, c: 1, p: 60, q: Some(1) };
                 let ans = match proto {
@@ -824,7 +952,43 @@ pub fn run(seed: u64, n: usize, out: &mut Out) {
                     let (id, resp) = &procs[0];
                     out.line(format!("atrace-loose {cap} {store_token} call:0:0:{};proc:0:0:{resp};ret:0:0:{}", id.join(":"), ans.show()), "ok 1".into());
                 }
+                // the probe that includes a DENIAL, on another new connection: fresh key, burst 1 -> allowed with
+                // nothing remaining, then denied; both must be answered
+                let dkey = format!("dprobe{round}_{proto:?}");
+                let mut fresh: Option<RespConn> = None;
+                let mut events: Vec<String> = vec![];
+                for half in 0..2usize {
+                    let l = Logical { key: dkey.clone(), b: 1, c: 1, p: 60, q: Some(1) };
+                    let (ans, _) = send_proto(proto, &mut rng, &ports, &l, &mut seen, &mut fresh, half == 0).await;
+                    let log = take_log();
+                    let procs: Vec<(Vec<String>, String)> = log.iter().filter_map(|x| parse_proc(x)).collect();
+                    out.bump("probes_with_denial");
+                    if let WireAns::Ok(false, ..) = ans {
+                        seen.denied += 1;
+                    }
+                    let good = if half == 0 { matches!(ans, WireAns::Ok(true, 1, 0, _, _)) } else { matches!(ans, WireAns::Ok(false, 1, 0, _, rt) if rt >= 0) };
+                    if !good {
+                        out.violation(
+                            "C11",
+                            format!("after hostile traffic, request {} of the denial probe (fresh key, burst 1, 1 per 60 s) on a new {proto:?} connection is answered {}, want {}", half + 1, ans.show(), if half == 0 { "ok,1,1,0,_,_" } else { "ok,0,1,0,_,>=0" }),
+                            replay.clone(),
+                        );
+                    }
+                    if procs.len() != 1 || procs[0].1 != ans.show() {
+                        out.violation("C11", format!("denial probe on {proto:?}: limiter log {procs:?}, wire answer {}", ans.show()), replay.clone());
+                    } else {
+                        let (id, resp) = &procs[0];
+                        events.push(format!("call:0:{half}:{};proc:0:{half}:{resp};ret:0:{half}:{}", id.join(":"), ans.show()));
+                    }
+                }
+                if events.len() == 2 {
+                    out.line(format!("atrace-loose {cap} {store_token} {}", events.join(";")), "ok 2".into());
+                }
+                probe_keys.push(dkey);
             }
+            // GET /metrics still answers and still lists the keys denied a moment ago
+            let replay: Vec<String> = descr.iter().map(|d| format!("# {}", &d[..d.len().min(300)])).collect();
+            check_probe_keys_exported(&ports, &metrics, &probe_keys, no_eviction, out, &replay).await;
         }
         // the RESP garbage connections and PINGs: commands that were answered count, the rest do not
         check_metrics(&ports, &metrics, &mut seen, out, "after the poison rounds", &mut recent).await;
